@@ -1,16 +1,20 @@
-(* Layer 4 proofs: non-interference of the printer for operands printed by reflection: leaves
-   and trees of slices, arrays, structs (exported or not), maps (keys shared) and interface
-   slots over leaves ([vrel]); container types not declared safe.
-   Two calls Sprintf(f, a1...) and Sprintf(f, a2...) whose leaves are values of basic kinds
-   (bool, integers, strings of any named or unnamed type; floats and nil held equal) that differ
-   only in unsafe content - integers other than 0 and 10 against each other, strings position
-   by position (equal bytes, or ASCII bytes other than line feed on both sides), operands of
-   SafeValue or registered types equal - make Buffer calls related by [dsim]: the same mode
-   switches, the same literal/diagnostic writes, unsafe stretches of the same skeleton.  Hence
-   (SegNI) Redact() of the two results is byte-identical: for every format (all flags, widths,
-   precisions, argument indexes, bad verbs, EXTRA/MISSING/BADINDEX/NOVERB diagnostics), without
-   '*' (a width taken from an operand is public).  The proof is a relational Hoare logic over
-   the evaluator, run in lock step on the two inputs. *)
+(* Layer 4 proofs: non-interference of the printer.
+   Two calls Sprintf(f, a1...) and Sprintf(f, a2...) whose operands are related by [arel]:
+   - leaves of basic kinds (bool, all integer kinds, floats, strings of any named or unnamed type)
+     that differ only in unsafe content - integers other than 0 and 10 against each other, strings
+     position by position (equal bytes, or ASCII bytes other than line feed on both sides), nil and
+     operands of SafeValue or registered types equal [lrel];
+   - trees of slices, arrays, structs, maps (keys shared), interface slots and pointers over them;
+   - values of user types whose String / Error / GoString method returns related strings, or whose
+     Format / SafeFormat method runs a script of SafeWriter / io.Writer calls with related payloads
+     and nested Print / Printf on related operands [vrel, actrel];
+   - Unsafe(x) for such a tree x, Safe(x) for a leaf x;
+   make Buffer calls related by [dsim]: the same mode switches, the same literal/diagnostic writes,
+   unsafe stretches of the same skeleton.  Hence (SegNI) Redact() of the two results is
+   byte-identical: for every format (all flags, widths, precisions, argument indexes, bad verbs,
+   EXTRA/MISSING/BADINDEX/NOVERB diagnostics), without '*' (a width taken from an operand is
+   public).  The proof is a relational Hoare logic over the evaluator, run in lock step on the two
+   inputs; the judgement also states that neither run panics. *)
 From Redact Require Import Bytes Tokens Utf8 Buffer Ops BufInv BufContent Fmt Value LBuf Printer Api.
 From Redact Require Import BufInvP BufContentP RedactNI SegNI FmtNI Hoare Keeps LeafP.
 From Redact Require Import FloatNI.
@@ -56,6 +60,18 @@ Proof.
   intros (_ & _ & [-> | (Hs & Hr & _)]) H; [reflexivity|]. rewrite Hs, Hr in H. discriminate.
 Qed.
 
+(* formats without '*': a width or precision taken from an operand would be public *)
+Definition no_star (f : bytes) : bool := forallb (fun c => negb (c =? 42)%N) f.
+
+Lemma no_star_fb f i : no_star f = true -> ((i <? length f)%nat && (fb f i =? 42)) = false.
+Proof.
+  intros H. destruct (i <? length f)%nat eqn:E; [|reflexivity]. apply Nat.ltb_lt in E. cbn [andb].
+  unfold no_star in H. rewrite forallb_forall in H. specialize (H (nth i f 0%N) (nth_In _ _ E)).
+  unfold fb. destruct (nth i f 0%N =? 42)%N eqn:E2; [discriminate|]. apply N.eqb_neq in E2.
+  apply Z.eqb_neq. intros X. apply E2. apply N2Z.inj. exact X.
+Qed.
+
+
 Section HK.
 (* hk: an error hook (RegisterRedactErrorFn) is installed; error values are then rendered by the
    hook's script, which this development does not relate *)
@@ -82,7 +98,39 @@ Inductive vrel : value -> value -> Prop :=
     iFormatter i = false -> iSafeFormatter i = false -> iSafeMessager i = false ->
     (iError i = true -> hk = false) ->
     (x1 = x2 \/ srel x1 x2) -> vrel r1 r2 ->
-    vrel (VUser t i false r1 (ARet x1 :: rest1)) (VUser t i false r2 (ARet x2 :: rest2)).
+    vrel (VUser t i false r1 (ARet x1 :: rest1)) (VUser t i false r2 (ARet x2 :: rest2))
+(* values whose Format / SafeFormat method runs a script against the printer: the same calls with
+   related payloads and operands *)
+| vr_fmtuser t i r1 r2 sc1 sc2 :
+    treg t = false -> tsv t = false ->
+    iFormatter i = true -> iSafeFormatter i = false -> iSafeMessager i = false ->
+    (iError i = true -> hk = false) ->
+    Forall2 actrel sc1 sc2 -> vrel r1 r2 ->
+    vrel (VUser t i false r1 sc1) (VUser t i false r2 sc2)
+| vr_sfuser t i r1 r2 sc1 sc2 :
+    treg t = false -> tsv t = false ->
+    iSafeFormatter i = true -> iFormatter i = false -> iGoStringer i = false -> iStringer i = false -> iError i = false ->
+    Forall2 actrel sc1 sc2 -> vrel r1 r2 ->
+    vrel (VUser t i false r1 sc1) (VUser t i false r2 sc2)
+(* operands: a tree, Unsafe(tree), Safe(leaf) *)
+with arel : value -> value -> Prop :=
+| ar_v x y : vrel x y -> arel x y
+| ar_unsafe a b : vrel a b -> arel (VUnsafe a) (VUnsafe b)
+| ar_safe a m : leafish a = true -> arel (VSafe a m) (VSafe a m)
+(* script actions *)
+with actrel : action -> action -> Prop :=
+| ac_ret x1 x2 : actrel (ARet x1) (ARet x2)
+| ac_write x1 x2 : (x1 = x2 \/ srel x1 x2) -> actrel (AWrite x1) (AWrite x2)
+| ac_us x1 x2 : (x1 = x2 \/ srel x1 x2) -> actrel (AUnsafeString x1) (AUnsafeString x2)
+| ac_ubs x1 x2 : (x1 = x2 \/ srel x1 x2) -> actrel (AUnsafeBytes x1) (AUnsafeBytes x2)
+| ac_same a :
+    match a with
+    | ASafeString _ | ASafeInt _ | ASafeUint _ | ASafeFloat _ | ASafeRune _ | ASafeByte _ | ASafeBytes _
+    | AUnsafeByte _ | AUnsafeRune _ | ADump => True
+    | _ => False
+    end -> actrel a a
+| ac_print a1 a2 : Forall2 arel a1 a2 -> actrel (APrint a1) (APrint a2)
+| ac_printf f a1 a2 : no_star f = true -> Forall2 arel a1 a2 -> actrel (APrintf f a1) (APrintf f a2).
 
 Lemma vrel_leaf_inv v1 v2 : vrel v1 v2 -> leafish v1 = true -> lrel v1 v2.
 Proof. intros H L. inversion H; subst; try discriminate. assumption. Qed.
@@ -124,19 +172,15 @@ Proof.
   all: cbn in E; discriminate.
 Qed.
 
-(* operands: a tree, or Unsafe(tree) *)
-Definition arel (v1 v2 : value) : Prop :=
-  vrel v1 v2 \/ (exists a b, v1 = VUnsafe a /\ v2 = VUnsafe b /\ vrel a b)
-  \/ (exists a m, v1 = VSafe a m /\ v2 = VSafe a m /\ leafish a = true).
 Lemma arel_nil_iff v1 v2 : arel v1 v2 -> (v1 = VNil <-> v2 = VNil).
 Proof.
-  intros [H | [(a & b & -> & -> & _) | (a & m & -> & -> & _)]]; [|split; discriminate ..].
+  intros Ha. inversion Ha as [x y H | | ]; subst; [|split; discriminate ..].
   inversion H; subst; try (split; discriminate).
-  destruct H0 as (_ & _ & [-> | (_ & _ & Hm)]); [tauto|]. destruct v1, v2; try contradiction; split; discriminate.
+  match goal with Hx : lrel _ _ |- _ => destruct Hx as (_ & _ & [-> | (_ & _ & Hm)]) end; [tauto|]. destruct v1, v2; try contradiction; split; discriminate.
 Qed.
 Lemma arel_names v1 v2 : arel v1 v2 -> type_name v1 = type_name v2 /\ is_string_kind v1 = is_string_kind v2.
 Proof.
-  intros [H | [(a & b & -> & -> & _) | (a & m & -> & -> & _)]]; [|split; reflexivity ..].
+  intros Ha. inversion Ha as [x y H | | ]; subst; [|split; reflexivity ..].
   destruct (vrel_tinfo _ _ H) as (_ & E1 & _ & _ & _ & E2 & _). split; assumption.
 Qed.
 
@@ -454,6 +498,9 @@ Definition crel (c1 c2 : call) : Prop :=
   | CPrintValue v1 b1 d1 ci1, CPrintValue v2 b2 d2 ci2 => b1 = b2 /\ d1 = d2 /\ ci1 = ci2 /\ vrel v1 v2
   | CBadVerb b1, CBadVerb b2 => b1 = b2
   | CHandleMethods b1, CHandleMethods b2 => b1 = b2
+  | CDoPrint a1, CDoPrint a2 => Forall2 arel a1 a2
+  | CDoPrintf f1 a1, CDoPrintf f2 a2 => f1 = f2 /\ no_star f1 = true /\ Forall2 arel a1 a2
+  | CActs _ b1 acts1, CActs _ b2 acts2 => b1 = b2 /\ Forall2 actrel acts1 acts2
   | _, _ => False
   end.
 (* what must be known when the override is Safe: the same value is printed *)
@@ -461,6 +508,7 @@ Definition cP (c1 c2 : call) : Prop :=
   match c1, c2 with
   | CPrintArg v1 _, CPrintArg v2 _ => v1 = v2 /\ lfs v1 = true
   | CPrintValue v1 _ _ _, CPrintValue v2 _ _ _ => v1 = v2 /\ lfs v1 = true
+  | CDoPrint _, _ | CDoPrintf _ _, _ | CActs _ _ _, _ => False     (* scripts and nested printers never run under a safe override *)
   | _, _ => True
   end.
 Definition rec_ok (rec : recT) : Prop := forall c1 c2, crel c1 c2 -> JS (HS (cP c1 c2)) eq (rec c1) (rec c2).
@@ -476,6 +524,266 @@ Qed.
 
 Lemma value_eq_nil (v : value) : v = VNil \/ v <> VNil.
 Proof. destruct v; [left; reflexivity | right; discriminate ..]. Qed.
+
+Lemma kovr_w1 w : kovr (w1 w). Proof. apply kovr_keeps, keeps_w1. Qed.
+Lemma kovr_wbyte c : kovr (wbyte c). Proof. apply kovr_keeps, keeps_wbyte. Qed.
+Lemma kovr_wstr str : kovr (wstr str). Proof. apply kovr_keeps, keeps_wstr. Qed.
+Lemma kovr_ret {A} (a : A) : kovr (ret a). Proof. intros s. reflexivity. Qed.
+Lemma kovr_getf : kovr getf. Proof. intros s. reflexivity. Qed.
+
+(* ---------- doPrintf ---------- *)
+Lemma JS_bind_o (Hp : ovr -> Prop) {A B} (RA : A -> A -> Prop) (RB : B -> B -> Prop) m1 m2 k1 k2 :
+  JS (fun s1 _ => Hp (povr s1)) RA m1 m2 -> kovr m1 ->
+  (forall a1 a2, RA a1 a2 -> JS (fun s1 _ => Hp (povr s1)) RB (k1 a1) (k2 a2)) ->
+  JS (fun s1 _ => Hp (povr s1)) RB (bind m1 k1) (bind m2 k2).
+Proof.
+  intros Hm Hko Hk s1 s2 N S Hs. unfold bind. specialize (Hm s1 s2 N S Hs). pose proof (Hko s1) as Eo.
+  destruct (m1 s1) as [[a1|v1| |w1] s1'] eqn:E1; destruct (m2 s2) as [[a2|v2| |w2] s2'] eqn:E2; try (exact Logic.I || contradiction || (exfalso; assumption));
+    try (destruct (k1 a1 s1') as [[?|?| |?] ?]; exact Logic.I).
+  destruct Hm as (Ra & N' & S' & G). cbn [snd] in Eo.
+  assert (Hp (povr s1')) as Hs' by (rewrite Eo; exact Hs).
+  specialize (Hk a1 a2 Ra s1' s2' N' S' Hs').
+  destruct (k1 a1 s1') as [[b1|?| |?] s1''], (k2 a2 s2') as [[b2|?| |?] s2'']; try (exact Logic.I || contradiction || (exfalso; assumption)).
+  destruct Hk as (Rb & N'' & S'' & G'). refine (conj Rb (conj N'' (conj S'' _))). eapply seg_trans; eassumption.
+Qed.
+
+Definition NoO : pst -> pst -> Prop := fun s1 _ => (fun o => o <> OvrSafe) (povr s1).
+
+Section Loop.
+  Variable rec : recT.
+  Variable env : env.
+  Hypothesis Hrec : rec_ok rec.
+  Hypothesis Hkrec : forall c, kovr (rec c).
+
+  Ltac nbmod :=
+    let s1 := fresh "s1" in let s2 := fresh "s2" in let N := fresh "N" in let S := fresh "S" in
+    intros s1 s2 N S; split;
+    [ destruct N; destruct s1, s2; constructor; cbn in *; auto; try congruence
+    | unfold SE in *; destruct s1, s2; cbn in *; auto ].
+
+  Lemma J_modf (h : pst -> pst) :
+    (forall s1 s2, NB s1 s2 -> SE s1 s2 -> NB (h s1) (h s2) /\ SE (h s1) (h s2)) -> (forall s, pl (h s) = pl s) ->
+    J any (modify h) (modify h).
+  Proof. intros H1 H2. now apply J_modify. Qed.
+
+  Lemma J_upd_flags g : J any (upd_flags g) (upd_flags g).
+  Proof. unfold upd_flags. apply J_modf; [nbmod | intros []; reflexivity]. Qed.
+  Lemma J_clearflags : J any clearflags clearflags.
+  Proof. unfold clearflags. apply J_modf; [nbmod | intros []; reflexivity]. Qed.
+  Lemma J_set_good b : J any (modify (fun s => set_good s b)) (modify (fun s => set_good s b)).
+  Proof. apply J_modf; [nbmod | intros []; reflexivity]. Qed.
+  Lemma J_set_reordered b : J any (modify (fun s => set_reordered s b)) (modify (fun s => set_reordered s b)).
+  Proof. apply J_modf; [nbmod | intros []; reflexivity]. Qed.
+  Lemma J_set_wid w p : J any (modify (fun s => set_wid s w p)) (modify (fun s => set_wid s w p)).
+  Proof. apply J_modf; [nbmod | intros []; reflexivity]. Qed.
+  Lemma J_set_prec w p : J any (modify (fun s => set_prec s w p)) (modify (fun s => set_prec s w p)).
+  Proof. apply J_modf; [nbmod | intros []; reflexivity]. Qed.
+
+  Lemma kovr_mod h : (forall s, povr (h s) = povr s) -> kovr (modify h).
+  Proof. intros H s. apply H. Qed.
+
+  Lemma J_flag_loop fuel f e argNum numArgs : forall i, J eq (flag_loop fuel f i e argNum numArgs) (flag_loop fuel f i e argNum numArgs).
+  Proof.
+    induction fuel as [|k IH]; intros i; cbn [flag_loop]; [now apply J_ret|].
+    destruct (i <? e)%nat; [|now apply J_ret].
+    repeat match goal with |- J eq (if ?c then _ else _) _ => destruct c end;
+      try (eapply J_bind; [apply J_upd_flags | intros; apply IH]); now apply J_ret.
+  Qed.
+
+  Lemma J_argNumber argNum f i e numArgs : J eq (argNumber argNum f i e numArgs) (argNumber argNum f i e numArgs).
+  Proof.
+    unfold argNumber. destruct ((e <=? i)%nat || negb (fb f i =? 91)); [now apply J_ret|].
+    eapply J_bind; [apply J_set_reordered | intros _ _ _].
+    destruct (parseArgNumber f i e) as [[index w] ok].
+    destruct (ok && (0 <=? index) && (index <? numArgs)); [now apply J_ret|].
+    eapply J_bind; [apply J_set_good | intros; now apply J_ret].
+  Qed.
+
+  Lemma Forall2_len {A B} (R : A -> B -> Prop) l1 l2 : Forall2 R l1 l2 -> length l1 = length l2.
+  Proof. induction 1; cbn; congruence. Qed.
+
+  Lemma lrel_nth a1 : forall a2 n, Forall2 arel a1 a2 -> arel (nth n a1 VNil) (nth n a2 VNil).
+  Proof.
+    induction a1 as [|x r IH]; intros a2 n H; inversion H; subst.
+    - destruct n; apply ar_v, vr_leaf, lrel_refl; reflexivity.
+    - destruct n; cbn [nth]; [assumption | now apply IH].
+  Qed.
+
+  Lemma NoO_HS P s1 s2 : NoO s1 s2 -> HS P s1 s2.
+  Proof. unfold NoO, HS. intros H X. contradiction. Qed.
+
+  Lemma Jrec_arg a1 a2 n verb : Forall2 arel a1 a2 ->
+    JS NoO any (rec (CPrintArg (nth n a1 VNil) verb)) (rec (CPrintArg (nth n a2 VNil) verb)).
+  Proof.
+    intros Ha s1 s2 N S Hn.
+    pose proof (Hrec (CPrintArg (nth n a1 VNil) verb) (CPrintArg (nth n a2 VNil) verb) (conj eq_refl (lrel_nth a1 a2 n Ha)) s1 s2 N S (NoO_HS _ _ _ Hn)) as R.
+    destruct (rec (CPrintArg (nth n a1 VNil) verb) s1) as [[u1|?| |?] x], (rec (CPrintArg (nth n a2 VNil) verb) s2) as [[u2|?| |?] y]; try (exact Logic.I || contradiction || (exfalso; assumption)).
+    destruct R as (_ & R). exact (conj Logic.I R).
+  Qed.
+
+  Hypothesis Hkeeps : rec_keeps rec.
+
+  Ltac jb := eapply (JS_bind_o (fun o => o <> OvrSafe)).
+  Ltac jn x := apply (J_JS NoO); exact x.
+
+  Lemma J_format_loop f a1 a2 : no_star f = true -> Forall2 arel a1 a2 ->
+    forall fuel i argNum afterIndex,
+    JS NoO eq (format_loop fuel rec f a1 i argNum afterIndex) (format_loop fuel rec f a2 i argNum afterIndex).
+  Proof.
+    intros Hns Ha. pose proof (Forall2_len _ _ _ Ha) as El.
+    induction fuel as [|k IH]; intros i argNum afterIndex; cbn [format_loop]; [intros s1 s2 _ _ _; exact Logic.I|].
+    rewrite <- El. set (e := length f). set (numArgs := Z.of_nat (length a1)).
+    assert (forall j, ((j <? e)%nat && (fb f j =? 42)) = false) as Hst by (intros; apply no_star_fb; exact Hns).
+    destruct (negb (i <? e)%nat); [apply J_JS; now apply J_ret|].
+    jb; [jn (J_set_good true) | apply kovr_mod; intros []; reflexivity | intros _ _ _].
+    jb; [| destruct (i <? skip_literal (S e) f i e)%nat; [apply kovr_w1 | intros s; reflexivity] | intros _ _ _].
+    { destruct (i <? skip_literal (S e) f i e)%nat; [jn (J_w1 (WS (subb f i (skip_literal (S e) f i e)))) | apply J_JS; now apply J_ret]. }
+    destruct (e <=? skip_literal (S e) f i e)%nat; [apply J_JS; now apply J_ret|].
+    jb; [jn J_clearflags | apply kovr_keeps, keeps_clearflags | intros _ _ _].
+    jb; [apply J_JS, J_flag_loop | apply kovr_keeps, keeps_flag_loop | intros fr ? <-].
+    destruct fr as [c i3 | i3].
+    { (* the fast path *)
+      jb; [| destruct (c =? 118); [apply kovr_keeps, keeps_upd_flags | intros s; reflexivity] | intros _ _ _].
+      { destruct (c =? 118); [jn (J_upd_flags f_verbv) | apply J_JS; now apply J_ret]. }
+      jb; [now apply Jrec_arg | apply Hkrec | intros _ _ _]. apply IH. }
+    jb; [apply J_JS, J_argNumber | apply kovr_keeps, keeps_argNumber | intros [[an i4] ai] ? <-].
+    (* width *)
+    rewrite (Hst i4).
+    jb.
+    { destruct (parsenum f i4 e) as [[w present] i5].
+      eapply JS_bind; [jn (J_set_wid w present) | intros _ _ _].
+      eapply J_bind; [|intros _ _ _; now apply (J_ret eq (an, i5, ai) (an, i5, ai))].
+      destruct (ai && present); [apply J_set_good | now apply J_ret]. }
+    { destruct (parsenum f i4 e) as [[w present] i5]. apply kovr_bind; [apply kovr_mod; intros []; reflexivity | intros _].
+      apply kovr_bind; [destruct (ai && present); [apply kovr_mod; intros []; reflexivity | intros s; reflexivity] | intros _ s; reflexivity]. }
+    intros [[an2 i5] ai2] ? <-.
+    (* precision *)
+    jb.
+    { destruct ((S i5 <? e)%nat && (fb f i5 =? 46)); [|apply J_JS; now apply (J_ret eq (an2, i5, ai2) (an2, i5, ai2))].
+      eapply JS_bind; [| intros _ _ _].
+      { destruct ai2; [jn (J_set_good false) | apply J_JS; now apply J_ret]. }
+      eapply J_bind; [apply J_argNumber | intros [[an3 i7] ai3] ? <-].
+      rewrite (Hst i7).
+      destruct (parsenum f i7 e) as [[p present] i8].
+      eapply J_bind; [|intros _ _ _; now apply (J_ret eq (an3, i8, ai3) (an3, i8, ai3))].
+      destruct present; apply J_set_prec. }
+    { destruct ((S i5 <? e)%nat && (fb f i5 =? 46)); [|intros s; reflexivity].
+      apply kovr_bind; [destruct ai2; [apply kovr_mod; intros []; reflexivity | intros s; reflexivity] | intros _].
+      apply kovr_bind; [apply kovr_keeps, keeps_argNumber | intros [[an3 i7] ai3]].
+      rewrite (Hst i7). destruct (parsenum f i7 e) as [[p present] i8].
+      apply kovr_bind; [destruct present; apply kovr_mod; intros []; reflexivity | intros _ s; reflexivity]. }
+    intros [[an4 i8] ai4] ? <-.
+    jb; [| destruct ai4; [intros s; reflexivity | apply kovr_keeps, keeps_argNumber] | intros [[an5 i9] ai5] ? <-].
+    { destruct ai4; [apply J_JS; now apply (J_ret eq (an4, i8, true) (an4, i8, true)) | apply J_JS, J_argNumber]. }
+    destruct (e <=? i9)%nat.
+    { apply J_JS. eapply J_bind; [apply J_wstr | intros; now apply J_ret]. }
+    destruct (if fb f i9 <? 128 then (fb f i9, 1%nat) else decode_rune (skipn i9 f)) as [verb size].
+    apply JS_get_bind. intros x y s1 s2 N S (-> & -> & Hn). rewrite <- (nb_good _ _ N).
+    assert (forall m1 m2 : M Z, JS NoO eq m1 m2 -> match m1 x, m2 y with
+              | (ROk a1', s1'), (ROk a2', s2') => a1' = a2' /\ NB s1' s2' /\ SE s1' s2' /\ seg x s1' y s2'
+              | (RFuel, _), _ | (RMiss _, _), _ | _, (RFuel, _) | _, (RMiss _, _) => True | _, _ => False end) as Hap
+      by (intros m1 m2 Hm; apply Hm; auto).
+    destruct (verb =? 37).
+    { apply Hap. jb; [jn (J_wbyte 37) | apply kovr_wbyte | intros _ _ _]. apply IH. }
+    destruct (negb (goodArgNum x)).
+    { apply Hap. jb; [jn (J_wstr "%!") | apply kovr_wstr | intros _ _ _].
+      jb; [jn (J_w1 (WR verb)) | apply kovr_w1 | intros _ _ _].
+      jb; [jn (J_wstr "(BADINDEX)") | apply kovr_wstr | intros _ _ _]. apply IH. }
+    destruct (numArgs <=? an5).
+    { apply Hap. jb; [jn (J_wstr "%!") | apply kovr_wstr | intros _ _ _].
+      jb; [jn (J_w1 (WR verb)) | apply kovr_w1 | intros _ _ _].
+      jb; [jn (J_wstr "(MISSING)") | apply kovr_wstr | intros _ _ _]. apply IH. }
+    apply Hap.
+    jb; [| destruct (verb =? 118); [apply kovr_keeps, keeps_upd_flags | intros s; reflexivity] | intros _ _ _].
+    { destruct (verb =? 118); [jn (J_upd_flags f_verbv) | apply J_JS; now apply J_ret]. }
+    jb; [now apply Jrec_arg | apply Hkrec | intros _ _ _]. apply IH.
+  Qed.
+End Loop.
+
+Section Top.
+  Variable rec : recT.
+  Variable env : env.
+  Hypothesis Hrec : rec_ok rec.
+  Hypothesis Hkrec : forall c, kovr (rec c).
+  Hypothesis Hkeeps : rec_keeps rec.
+
+  Ltac jb := eapply (JS_bind_o (fun o => o <> OvrSafe)).
+  Ltac jba := eapply (JS_bind_o (fun o => o <> OvrSafe) any).
+
+  Lemma J_enter_safe : JS NoO any enter_safe enter_safe.
+  Proof.
+    unfold enter_safe. apply JS_get_bind. intros x y s1 s2 N S (-> & -> & Hn).
+    rewrite <- (nb_ovr _ _ N). destruct (ovr_eqb (povr x) OvrUnsafe); [apply (J_ret any tt tt Logic.I); auto|].
+    apply (JS_set_mode MSafe); auto. intros _. discriminate.
+  Qed.
+
+  Lemma J_extra_args a1 : forall a2 first, Forall2 arel a1 a2 ->
+    JS NoO any (extra_args rec first a1) (extra_args rec first a2).
+  Proof.
+    induction a1 as [|x r IH]; intros a2 first H; inversion H as [|? y ? r2 Hxy Hr]; subst; cbn [extra_args]; [apply J_JS; now apply J_ret|].
+    jba; [| destruct first; [intros s; reflexivity | apply kovr_wstr] | intros _ _ _].
+    { destruct first; [apply J_JS; now apply J_ret | apply J_JS, J_wstr]. }
+    jba; [| | intros _ _ _; now apply IH].
+    - destruct (value_eq_nil x) as [-> | Hn1].
+      + assert (y = VNil) as -> by (now apply (arel_nil_iff _ _ Hxy)). apply J_JS, J_wstr.
+      + assert (y <> VNil) as Hn2 by (intros E; apply Hn1; now apply (arel_nil_iff _ _ Hxy)).
+        destruct (arel_names _ _ Hxy) as (Etn & _).
+        assert ((match x with VNil => wstr "<nil>" | _ => w1 (WS (type_name x)) ;;; wbyte 61 ;;; rec (CPrintArg x 118) ;;; ret tt end)
+                = (w1 (WS (type_name x)) ;;; wbyte 61 ;;; rec (CPrintArg x 118) ;;; ret tt)) as -> by (destruct x; congruence).
+        assert ((match y with VNil => wstr "<nil>" | _ => w1 (WS (type_name y)) ;;; wbyte 61 ;;; rec (CPrintArg y 118) ;;; ret tt end)
+                = (w1 (WS (type_name y)) ;;; wbyte 61 ;;; rec (CPrintArg y 118) ;;; ret tt)) as -> by (destruct y; congruence).
+        rewrite <- Etn.
+        jb; [apply J_JS, J_w1 | apply kovr_w1 | intros _ _ _].
+        jb; [apply J_JS, J_wbyte | apply kovr_wbyte | intros _ _ _].
+        eapply JS_bind; [|intros; now apply J_ret].
+        intros s1 s2 N S Hn.
+        pose proof (Hrec (CPrintArg x 118) (CPrintArg y 118) (conj eq_refl Hxy) s1 s2 N S (NoO_HS _ _ _ Hn)) as R.
+        destruct (rec (CPrintArg x 118) s1) as [[u1|?| |?] p], (rec (CPrintArg y 118) s2) as [[u2|?| |?] q]; try (exact Logic.I || contradiction || (exfalso; assumption)).
+        destruct R as (_ & R). exact (conj Logic.I R).
+    - destruct x; try (apply kovr_wstr);
+        (apply kovr_bind; [apply kovr_w1 | intros _]; apply kovr_bind; [apply kovr_wbyte | intros _]; apply kovr_bind; [apply Hkrec | intros _ sx; reflexivity]).
+  Qed.
+
+  Lemma Forall2_skipn {A B} (R : A -> B -> Prop) n : forall l1 l2, Forall2 R l1 l2 -> Forall2 R (skipn n l1) (skipn n l2).
+  Proof. induction n as [|k IH]; intros l1 l2 H; [exact H|]. inversion H; subst; cbn [skipn]; [constructor | now apply IH]. Qed.
+
+  Lemma J_doPrintf f a1 a2 : no_star f = true -> Forall2 arel a1 a2 ->
+    JS NoO any (doPrintf rec f a1) (doPrintf rec f a2).
+  Proof.
+    intros Hns Ha. unfold doPrintf. rewrite <- (Forall2_len _ _ _ Ha).
+    jb; [apply J_enter_safe | apply kovr_enter_safe | intros _ _ _].
+    jb; [apply J_JS, J_set_reordered | apply kovr_mod; intros []; reflexivity | intros _ _ _].
+    jb; [now apply J_format_loop | apply kovr_keeps, keeps_format_loop, Hkeeps | intros argNum ? <-].
+    apply JS_get_bind. intros x y s1 s2 N S (-> & -> & Hn). rewrite <- (nb_re _ _ N).
+    destruct (negb (reordered x) && (argNum <? Z.of_nat (length a1))).
+    - assert (JS NoO any (clearflags ;;; wstr "%!(EXTRA " ;;; extra_args rec true (skipn (Z.to_nat argNum) a1) ;;; wbyte 41)
+                         (clearflags ;;; wstr "%!(EXTRA " ;;; extra_args rec true (skipn (Z.to_nat argNum) a2) ;;; wbyte 41)) as Hk.
+      { jb; [apply J_JS, J_clearflags | apply kovr_keeps, keeps_clearflags | intros _ _ _].
+        jb; [apply J_JS, J_wstr | apply kovr_wstr | intros _ _ _].
+        eapply JS_bind; [apply J_extra_args, Forall2_skipn, Ha | intros; apply J_wbyte]. }
+      apply Hk; auto.
+    - apply (J_ret any tt tt Logic.I); auto.
+  Qed.
+
+  Lemma J_doPrint_loop a1 : forall a2 argNum prev, Forall2 arel a1 a2 ->
+    JS NoO any (doPrint_loop rec argNum prev a1) (doPrint_loop rec argNum prev a2).
+  Proof.
+    induction a1 as [|x r IH]; intros a2 argNum prev H; inversion H as [|? y ? r2 Hxy Hr]; subst; cbn [doPrint_loop]; [apply J_JS; now apply J_ret|].
+    destruct (arel_names _ _ Hxy) as (_ & Es). rewrite <- Es.
+    jba; [| destruct ((0 <? argNum)%nat && negb (is_string_kind x) && negb prev); [apply kovr_wbyte | intros s; reflexivity] | intros _ _ _].
+    { destruct ((0 <? argNum)%nat && negb (is_string_kind x) && negb prev); [apply J_JS, J_wbyte | apply J_JS; now apply J_ret]. }
+    jba; [| apply Hkrec | intros _ _ _; now apply IH].
+    intros s1 s2 N S Hn.
+    pose proof (Hrec (CPrintArg x 118) (CPrintArg y 118) (conj eq_refl Hxy) s1 s2 N S (NoO_HS _ _ _ Hn)) as R.
+    destruct (rec (CPrintArg x 118) s1) as [[u1|?| |?] p], (rec (CPrintArg y 118) s2) as [[u2|?| |?] q]; try (exact Logic.I || contradiction || (exfalso; assumption)).
+    destruct R as (_ & R). exact (conj Logic.I R).
+  Qed.
+
+  Lemma J_doPrint a1 a2 : Forall2 arel a1 a2 -> JS NoO any (doPrint rec a1) (doPrint rec a2).
+  Proof.
+    intros Ha. unfold doPrint. jb; [apply J_enter_safe | apply kovr_enter_safe | intros _ _ _]. now apply J_doPrint_loop.
+  Qed.
+End Top.
 
 Section Rec.
   Variable rec : recT.
@@ -629,9 +937,6 @@ Section Rec.
   Lemma J_set_erroring b : J any (modify (fun s => set_erroring s b)) (modify (fun s => set_erroring s b)).
   Proof. apply J_modify; [nbmod | intros []; reflexivity | intros []; reflexivity]. Qed.
 
-  Lemma kovr_w1 w : kovr (w1 w). Proof. apply kovr_keeps, keeps_w1. Qed.
-  Lemma kovr_wbyte c : kovr (wbyte c). Proof. apply kovr_keeps, keeps_wbyte. Qed.
-  Lemma kovr_wstr str : kovr (wstr str). Proof. apply kovr_keeps, keeps_wstr. Qed.
 
   Lemma JbadVerb verb : J any (badVerb rec verb) (badVerb rec verb).
   Proof.
@@ -654,7 +959,7 @@ Section Rec.
         eapply JS_bind_k; [apply J_JS, J_w1 | apply kovr_w1 | intros _ _ _].
         eapply JS_bind_k; [apply J_JS, J_wbyte | apply kovr_wbyte | intros _ _ _].
         eapply JS_bind; [|intros; now apply J_ret].
-        eapply JS_weaken; [|apply (Hrec (CPrintArg a1 118) (CPrintArg a2 118)); split; [reflexivity | left; exact Ha]].
+        eapply JS_weaken; [|apply (Hrec (CPrintArg a1 118) (CPrintArg a2 118)); split; [reflexivity | apply ar_v; exact Ha]].
         intros ? ? H. exact H. }
       apply Hk; auto. intros Ho. destruct (S Ho) as (E & L & _). rewrite Ea, Eb in E. rewrite Ea in L. split; [now injection E | exact L].
     - (* the operand as a reflect.Value *)
@@ -765,8 +1070,6 @@ Section Rec.
       destruct (iStringer i); [|reflexivity]. apply bind_cong_l; apply catch_panic_ext; intros s1; reflexivity.
   Qed.
 
-  Lemma kovr_ret {A} (a : A) : kovr (ret a). Proof. intros s. reflexivity. Qed.
-  Lemma kovr_getf : kovr getf. Proof. intros s. reflexivity. Qed.
 
   Lemma Juser_std a1 a2 i x1 x2 verb : (x1 = x2 \/ srel x1 x2) ->
     JS (HS (x1 = x2)) eq (user_std a1 i x1 verb) (user_std a2 i x2 verb).
@@ -784,6 +1087,58 @@ Section Rec.
       eapply JS_bind; [|intros; now apply J_ret]. apply Jcatch_panic. now apply JfmtString.
   Qed.
 
+  (* handleMethods on a value whose Format / SafeFormat method runs a script *)
+  Definition script_call (a : value) (verb : Z) (method : string) (sc : list action) : M bool :=
+    catch_panic rec a verb method (rec (CActs a verb sc) ;;; ret tt) ;;; ret true.
+
+  Lemma handleMethods_fmt_run verb s t i r sc :
+    parg s = Some (VUser t i false r sc) -> wrapErrs s = false ->
+    iFormatter i = true -> iSafeFormatter i = false -> iSafeMessager i = false -> (iError i = true -> hook env = None) ->
+    handleMethods rec env verb s =
+    if erroring s then (ROk false, s)
+    else if verb =? 119 then hm_bad verb s else script_call (VUser t i false r sc) verb "Format" sc s.
+  Proof.
+    intros Ea Hw F1 F2 F3 Hh. unfold handleMethods, bind at 1, Printer.get. cbn iota beta.
+    destruct (erroring s); [reflexivity|]. rewrite Ea, Hw. cbn [negb orb]. rewrite Bool.orb_true_r, Bool.andb_true_r.
+    destruct (verb =? 119); [reflexivity|].
+    unfold bind at 1, ret at 1. cbn iota beta.
+    rewrite F1, F2, F3.
+    assert (forall std : M bool, (if iError i then match hook env with
+              | Some h => catch_panic rec (VUser t i false r sc) verb "SafeFormatter" (rec (CActs (VUser t i false r sc) verb h) ;;; ret tt) ;;; ret true
+              | None => std end else std) = std) as Hstd.
+    { intros std. destruct (iError i); [rewrite (Hh eq_refl)|]; reflexivity. }
+    rewrite Hstd.
+    match goal with |- (if ?c then ?m else ?m) s = _ => replace (if c then m else m) with m by (destruct c; reflexivity) end.
+    reflexivity.
+  Qed.
+
+  Lemma handleMethods_sf_run verb s t i r sc :
+    parg s = Some (VUser t i false r sc) -> wrapErrs s = false ->
+    iSafeFormatter i = true -> iFormatter i = false -> iGoStringer i = false -> iStringer i = false -> iError i = false ->
+    handleMethods rec env verb s =
+    if erroring s then (ROk false, s)
+    else if verb =? 119 then hm_bad verb s
+    else if negb (ovr_eqb (povr s) OvrUnsafe) then script_call (VUser t i false r sc) verb "SafeFormat" sc s
+    else (ROk false, s).
+  Proof.
+    intros Ea Hw F1 F2 F3 F4 F5. unfold handleMethods, bind at 1, Printer.get. cbn iota beta.
+    destruct (erroring s); [reflexivity|]. rewrite Ea, Hw. cbn [negb orb]. rewrite Bool.orb_true_r, Bool.andb_true_r.
+    destruct (verb =? 119); [reflexivity|].
+    unfold bind at 1, ret at 1. cbn iota beta.
+    rewrite F1, F2, F3, F4, F5.
+    destruct (negb (ovr_eqb (povr s) OvrUnsafe)); [reflexivity|].
+    unfold bind, getf. cbn iota beta. destruct (sharpV (fl (pf s))); [reflexivity|]. destruct (isv verb "vsxXq"); reflexivity.
+  Qed.
+
+  Lemma Jscript_call a1 a2 verb method sc1 sc2 : Forall2 actrel sc1 sc2 ->
+    JS (HS False) eq (script_call a1 verb method sc1) (script_call a2 verb method sc2).
+  Proof.
+    intros Hsc. unfold script_call. eapply JS_bind; [|intros; now apply J_ret].
+    apply Jcatch_panic. eapply JS_bind; [|intros; now apply J_ret].
+    eapply JS_weaken; [|apply (Hrec (CActs a1 verb sc1) (CActs a2 verb sc2)); split; [reflexivity | exact Hsc]].
+    intros ? ? Hx. exact Hx.
+  Qed.
+
   Lemma vrel_isuser v1 v2 : vrel v1 v2 -> isuser v1 = isuser v2.
   Proof. intros H. inversion H; subst; try reflexivity. destruct H0 as (L1 & L2 & _). destruct v1, v2; try discriminate; reflexivity. Qed.
 
@@ -792,17 +1147,34 @@ Section Rec.
     intros s1 s2 N S _. pose proof (nb_arg _ _ N) as Ha.
     destruct (parg s1) as [a1|] eqn:E1, (parg s2) as [a2|] eqn:E2; cbn [orel] in Ha; try contradiction.
     - destruct (isuser a1) eqn:U1.
-      + (* a value with a string method *)
-        inversion Ha; subst; try discriminate.
-        { destruct H as (L1 & _). destruct a1; discriminate. }
-        match goal with Hx : _ = _ \/ srel _ _ |- _ => rename Hx into Hxs end.
-        rewrite (handleMethods_user_run verb s1 _ _ _ _ _ E1 (nb_nw _ _ N)) by (try assumption; intros Hi; apply Hhk; auto).
+      + (* a value of a user type *)
         assert (wrapErrs s2 = false) as Hw2 by (rewrite <- (nb_we _ _ N); apply N).
-        rewrite (handleMethods_user_run verb s2 _ _ _ _ _ E2 Hw2) by (try assumption; intros Hi; apply Hhk; auto).
-        rewrite <- (nb_err _ _ N).
-        destruct (erroring s1); [refine (conj eq_refl (conj N (conj S _))); apply seg_refl|].
-        destruct (verb =? 119); [apply J_hm_bad; auto|].
-        apply Juser_std; auto. intros Hos1. destruct (S Hos1) as (E & _). rewrite E1, E2 in E. now injection E.
+        assert (povr s1 = OvrSafe -> False) as Hnos.
+        { intros Ho. destruct (S Ho) as (_ & L & _). rewrite E1 in L. cbn [leaf_opt] in L. destruct a1; try discriminate U1. discriminate L. }
+        inversion Ha; subst; try discriminate.
+        * destruct H as (L1 & _). destruct a1; discriminate.
+        * (* String / Error / GoString *)
+          match goal with Hx : _ = _ \/ srel _ _ |- _ => rename Hx into Hxs end.
+          rewrite (handleMethods_user_run verb s1 _ _ _ _ _ E1 (nb_nw _ _ N)) by (try assumption; intros Hi; apply Hhk; auto).
+          rewrite (handleMethods_user_run verb s2 _ _ _ _ _ E2 Hw2) by (try assumption; intros Hi; apply Hhk; auto).
+          rewrite <- (nb_err _ _ N).
+          destruct (erroring s1); [refine (conj eq_refl (conj N (conj S _))); apply seg_refl|].
+          destruct (verb =? 119); [apply J_hm_bad; auto|].
+          apply Juser_std; auto. intros Hos1. destruct (Hnos Hos1).
+        * (* Format *)
+          rewrite (handleMethods_fmt_run verb s1 _ _ _ _ E1 (nb_nw _ _ N)) by (try assumption; intros Hi; apply Hhk; auto).
+          rewrite (handleMethods_fmt_run verb s2 _ _ _ _ E2 Hw2) by (try assumption; intros Hi; apply Hhk; auto).
+          rewrite <- (nb_err _ _ N).
+          destruct (erroring s1); [refine (conj eq_refl (conj N (conj S _))); apply seg_refl|].
+          destruct (verb =? 119); [apply J_hm_bad; auto|].
+          apply Jscript_call; auto.
+        * (* SafeFormat *)
+          rewrite (handleMethods_sf_run verb s1 _ _ _ _ E1 (nb_nw _ _ N)) by assumption.
+          rewrite (handleMethods_sf_run verb s2 _ _ _ _ E2 Hw2) by assumption.
+          rewrite <- (nb_err _ _ N), <- (nb_ovr _ _ N).
+          destruct (erroring s1); [refine (conj eq_refl (conj N (conj S _))); apply seg_refl|].
+          destruct (verb =? 119); [apply J_hm_bad; auto|].
+          destruct (negb (ovr_eqb (povr s1) OvrUnsafe)); [apply Jscript_call; auto | refine (conj eq_refl (conj N (conj S _))); apply seg_refl].
       + assert (isuser a2 = false) as U2 by (rewrite <- (vrel_isuser _ _ Ha); exact U1).
         destruct (vrel_shape _ _ Ha) as [Sh1 Sh2].
         rewrite (handleMethods_run verb s1), (handleMethods_run verb s2), <- (nb_err _ _ N) by (rewrite ?E1, ?E2; auto).
@@ -1005,6 +1377,8 @@ Section Rec.
         (eapply JS_bind_k; [apply J_JS, J_wbyte | apply kovr_wbyte | intros _ _ _];
          eapply JS_bind; [apply Jelem; assumption | intros; now apply J_ret]).
     - discriminate.
+    - discriminate.
+    - discriminate.
   Qed.
 
   (* a user value no method took: reflection prints its representation *)
@@ -1012,10 +1386,10 @@ Section Rec.
     JS (HS (v1 = v2 /\ lfs v1 = true)) any (print_kind fuel rec env v1 verb depth ci) (print_kind fuel rec env v2 verb depth ci).
   Proof.
     induction fuel as [|k IHf]; intros v1 v2 verb depth ci Hv; (destruct (isuser v1) eqn:U; [|now apply Jprint_kind_nu]).
-    - inversion Hv; subst; try discriminate; [destruct H as (L1 & _); destruct v1; discriminate|].
-      cbn [print_kind]. intros ? ? _ _ _. exact Logic.I.
-    - inversion Hv; subst; try discriminate; [destruct H as (L1 & _); destruct v1; discriminate|].
-      cbn [print_kind]. eapply JS_weaken; [|apply IHf; eassumption]. intros ? ? Hx Ho. destruct (Hx Ho) as [_ Lx]. discriminate.
+    - inversion Hv; subst; try discriminate; [destruct H as (L1 & _); destruct v1; discriminate| | |];
+        cbn [print_kind]; intros ? ? _ _ _; exact Logic.I.
+    - inversion Hv; subst; try discriminate; [destruct H as (L1 & _); destruct v1; discriminate| | |];
+        cbn [print_kind]; (eapply JS_weaken; [|apply IHf; eassumption]); intros ? ? Hx Ho; destruct (Hx Ho) as [_ Lx]; discriminate.
   Qed.
 
   (* ---------- printValue at depth 0, printArg ---------- *)
@@ -1443,6 +1817,194 @@ Section Rec.
     - eapply JS0_weaken; [|apply (JprintArg_body v1 v1 verb Hl)]. intros ? ? _ _. split; [reflexivity | now apply lfs_leaf].
   Qed.
 
+  (* ---------- scripts: the calls a Format / SafeFormat method makes on the printer ---------- *)
+  Lemma dsim_same_writes m os m' : m <> MUnsafe -> forallb is_wr os = true ->
+    dsim m (os ++ [OMode m']) (os ++ [OMode m']) m'.
+  Proof.
+    intros Hm. induction os as [|o r IH]; intros Hw; cbn [app]; [apply ds_mode; constructor|].
+    cbn [forallb] in Hw. apply andb_prop in Hw. destruct Hw. apply ds_same; auto.
+  Qed.
+
+  Lemma set_back s l1 l2 l3 : povr s = NoOvr ->
+    set_ovr (set_pl (set_pl (set_ovr (set_pl s l1) OvrSafe) l2) l3) (povr s) = set_pl s l3.
+  Proof. intros H. destruct s; cbn in *. subst. reflexivity. Qed.
+
+  (* a safe emitter with no override active: SetMode(safe), the writes, SetMode(previous) *)
+  Lemma safe_wr_run ws s : povr s = NoOvr ->
+    bracket start_safe_ovr (wr ws) s =
+    (ROk tt, set_pl s (lset (lwrites (lset (pl s) (OMode MSafe)) (ops_of ws)) (OMode (lmode (pl s))))).
+  Proof.
+    intros Hn. rewrite bracket_safe_run. assert (ovr_eqb (povr s) NoOvr = true) as -> by (rewrite Hn; reflexivity).
+    cbv zeta. rewrite wr_state.
+    assert (forall x l o, pl (set_ovr (set_pl x l) o) = l) as Hp by (intros [] ? ?; reflexivity).
+    rewrite !pl_set_pl, Hp. apply f_equal. apply set_back. exact Hn.
+  Qed.
+
+  Lemma safe_ubody_run g s : povr s = NoOvr ->
+    bracket start_safe_ovr (ubody g) s =
+    match g (pf s) with
+    | Some w => (ROk tt, set_pl s (lset (lset (lwrites (lset (pl s) (OMode MSafe)) (ops_of w)) (OMode MSafe)) (OMode (lmode (pl s)))))
+    | None => (RMiss 0, set_pl s (lset (lset (lset (pl s) (OMode MSafe)) (OMode MSafe)) (OMode (lmode (pl s)))))
+    end.
+  Proof.
+    intros Hn. rewrite bracket_safe_run. assert (ovr_eqb (povr s) NoOvr = true) as -> by (rewrite Hn; reflexivity).
+    cbv zeta. rewrite ubody_run.
+    assert (forall x l o, pl (set_ovr (set_pl x l) o) = l /\ pf (set_ovr (set_pl x l) o) = pf x /\ povr (set_ovr (set_pl x l) o) = o) as Hp by (intros [] ? ?; auto).
+    destruct (Hp s (lset (pl s) (OMode MSafe)) OvrSafe) as (-> & -> & ->). cbn [ovr_eqb]. cbv zeta. rewrite lmode_setmode.
+    destruct (g (pf s)); (rewrite !pl_set_pl; apply f_equal; apply set_back; exact Hn).
+  Qed.
+
+  (* under an unsafe override start_safe_ovr does nothing: the body, then SetMode(previous) *)
+  Lemma Jbracket_safe_uo (b1 b2 : M unit) : kovr b1 -> J any b1 b2 ->
+    JS (fun s1 _ => povr s1 = OvrUnsafe) any (bracket start_safe_ovr b1) (bracket start_safe_ovr b2).
+  Proof.
+    intros Hk Hb s1 s2 N S Ho. rewrite !bracket_safe_run. rewrite <- (nb_ovr _ _ N), Ho. cbn [ovr_eqb]. cbv zeta.
+    specialize (Hb s1 s2 N S Logic.I). pose proof (Hk s1) as Ek.
+    destruct (b1 s1) as [[u1|?| |?] x], (b2 s2) as [[u2|?| |?] y]; try (exact Logic.I || contradiction || (exfalso; assumption)).
+    destruct Hb as (_ & Nx & Sx & Gx). cbn [snd] in Ek.
+    assert (forall s l o, pl (set_ovr (set_pl s l) o) = l) as Hp by (intros [] ? ?; reflexivity).
+    rewrite <- (nb_mode _ _ N).
+    refine (conj Logic.I (conj _ (conj _ _))).
+    - apply NB_set_pl_ovr; [exact Nx | now rewrite !lmode_setmode | intros X; discriminate].
+    - intros X. assert (forall s l o, povr (set_ovr (set_pl s l) o) = o) as Hq by (intros [] ? ?; reflexivity). rewrite Hq in X. discriminate.
+    - eapply seg_trans; [exact Gx|].
+      exists [OMode (lmode (pl s1))], [OMode (lmode (pl s1))]. rewrite !Hp, !rlog_lset. split; [reflexivity|]. split; [reflexivity|].
+      cbn [rev app]. rewrite lmode_setmode. apply ds_mode. constructor.
+  Qed.
+
+  Lemma povr_cases s : povr s <> OvrSafe -> povr s = NoOvr \/ povr s = OvrUnsafe.
+  Proof. destruct (povr s); auto. congruence. Qed.
+
+  Lemma Jsafe_wr ws : JS (HS False) any (bracket start_safe_ovr (wr ws)) (bracket start_safe_ovr (wr ws)).
+  Proof.
+    intros s1 s2 N S Hs. assert (povr s1 <> OvrSafe) as Hns by (intros X; exact (Hs X)).
+    destruct (povr_cases _ Hns) as [Hn | Hu].
+    - assert (povr s2 = NoOvr) as Hn2 by (rewrite <- (nb_ovr _ _ N); exact Hn).
+      rewrite (safe_wr_run ws s1 Hn), (safe_wr_run ws s2 Hn2), <- (nb_mode _ _ N).
+      destruct (lwrites_log (ops_of ws) (lset (pl s1) (OMode MSafe)) (ops_of_wr ws)) as [L1 M1].
+      destruct (lwrites_log (ops_of ws) (lset (pl s2) (OMode MSafe)) (ops_of_wr ws)) as [L2 M2].
+      refine (conj Logic.I (conj _ (conj _ _))).
+      + apply NB_set_pl; [exact N | now rewrite !lmode_setmode | intros X; congruence].
+      + intros X. destruct s1; cbn in *. congruence.
+      + exists (OMode (lmode (pl s1)) :: rev (ops_of ws) ++ [OMode MSafe]), (OMode (lmode (pl s1)) :: rev (ops_of ws) ++ [OMode MSafe]).
+        rewrite !pl_set_pl, !rlog_lset, L1, L2, !rlog_lset.
+        split; [cbn [app]; now rewrite <- app_assoc|]. split; [cbn [app]; now rewrite <- app_assoc|].
+        rewrite lmode_setmode. cbn [rev]. rewrite !rev_app_distr, !rev_involutive. cbn [rev app].
+        apply ds_mode. apply dsim_same_writes; [discriminate | apply ops_of_wr].
+    - exact (Jbracket_safe_uo (wr ws) (wr ws) (kovr_keeps _ (keeps_wr ws)) (J_wr ws) s1 s2 N S Hu).
+  Qed.
+
+  Lemma Jsafe_ubody g : JS (HS False) any (bracket start_safe_ovr (ubody g)) (bracket start_safe_ovr (ubody g)).
+  Proof.
+    intros s1 s2 N S Hs. assert (povr s1 <> OvrSafe) as Hns by (intros X; exact (Hs X)).
+    destruct (povr_cases _ Hns) as [Hn | Hu].
+    - assert (povr s2 = NoOvr) as Hn2 by (rewrite <- (nb_ovr _ _ N); exact Hn).
+      rewrite (safe_ubody_run g s1 Hn), (safe_ubody_run g s2 Hn2), <- (nb_mode _ _ N), <- (nb_pf _ _ N).
+      destruct (g (pf s1)) as [w|]; [|exact Logic.I].
+      destruct (lwrites_log (ops_of w) (lset (pl s1) (OMode MSafe)) (ops_of_wr w)) as [L1 M1].
+      destruct (lwrites_log (ops_of w) (lset (pl s2) (OMode MSafe)) (ops_of_wr w)) as [L2 M2].
+      refine (conj Logic.I (conj _ (conj _ _))).
+      + apply NB_set_pl; [exact N | now rewrite !lmode_setmode | intros X; congruence].
+      + intros X. destruct s1; cbn in *. congruence.
+      + exists (OMode (lmode (pl s1)) :: OMode MSafe :: rev (ops_of w) ++ [OMode MSafe]), (OMode (lmode (pl s1)) :: OMode MSafe :: rev (ops_of w) ++ [OMode MSafe]).
+        rewrite !pl_set_pl, !rlog_lset, L1, L2, !rlog_lset.
+        split; [cbn [app]; now rewrite <- app_assoc|]. split; [cbn [app]; now rewrite <- app_assoc|].
+        rewrite lmode_setmode. cbn [rev]. rewrite !rev_app_distr, !rev_involutive. cbn [rev app]. rewrite <- !app_assoc. cbn [app].
+        apply ds_mode.
+        replace (ops_of w ++ [OMode MSafe; OMode (lmode (pl s1))]) with ((ops_of w ++ [OMode MSafe]) ++ [OMode (lmode (pl s1))]) by (rewrite <- app_assoc; reflexivity).
+        eapply dsim_app; [apply dsim_same_writes; [discriminate | apply ops_of_wr]|]. apply ds_mode. constructor.
+    - refine (Jbracket_safe_uo (ubody g) (ubody g) _ (ubody_refl g) s1 s2 N S Hu).
+      apply kovr_keeps. unfold ubody. apply keeps_bracket. apply start_ok_unsafe.
+  Qed.
+
+  Lemma usegw_ws x1 x2 : (x1 = x2 \/ srel x1 x2) -> usegw [WS x1] [WS x2].
+  Proof.
+    intros H. assert (srel x1 x2) as Hs by (destruct H as [-> | H]; [apply srel_refl | exact H]).
+    apply usegw_intro; [reflexivity|]. rewrite !pay_ws. now rewrite (srel_kinds _ _ Hs).
+  Qed.
+
+  Lemma w1_wr w s : w1 w s = wr [w] s.
+  Proof. cbn [wr]. unfold bind, ret. destruct (w1 w s) as [[[]|?| |?] ?]; reflexivity. Qed.
+
+  Lemma Junsafe_w1 w1' w2' : usegw [w1'] [w2'] ->
+    JS (HS False) any (bracket start_unsafe (w1 w1')) (bracket start_unsafe (w1 w2')).
+  Proof.
+    intros Hu s1 s2 N S Hs.
+    rewrite (bracket_ext start_unsafe (w1 w1') (f <- getf ;; ws <- of_opt (Some [w1']) ;; wr ws)) by (intros s; rewrite w1_wr; reflexivity).
+    rewrite (bracket_ext start_unsafe (w1 w2') (f <- getf ;; ws <- of_opt (Some [w2']) ;; wr ws)) by (intros s; rewrite w1_wr; reflexivity).
+    apply (ubody_rel (fun _ => Some [w1']) (fun _ => Some [w2'])); auto.
+    - intros f a b E1 E2. injection E1 as <-. injection E2 as <-. exact Hu.
+    - intros X. destruct (Hs X).
+  Qed.
+
+  (* the nested printer of SafePrinter.Print / Printf: a new printer state on the same buffer *)
+  Lemma nested_run c s :
+    nested rec c s =
+    let '(o, ns') := rec c (fresh_pp (pl s) (povr s)) in
+    (match o with ROk _ => ROk tt | RPanic v => RPanic v | RFuel => RFuel | RMiss w => RMiss w end,
+     set_pl (set_pl s (pl ns')) (lset (pl ns') (OMode (lmode (pl s))))).
+  Proof.
+    unfold nested, bind, get_mode, Printer.get. cbn iota beta zeta.
+    destruct (rec c (fresh_pp (pl s) (povr s))) as [o ns']. rewrite setmode_state. rewrite pl_set_pl. reflexivity.
+  Qed.
+
+  Lemma Jnested c1 c2 : crel c1 c2 -> cP c1 c2 = False ->
+    JS (HS False) any (nested rec c1) (nested rec c2).
+  Proof.
+    intros Hc HcP s1 s2 N S Hs. assert (povr s1 <> OvrSafe) as Hns by (intros X; exact (Hs X)).
+    rewrite !nested_run. rewrite <- (nb_ovr _ _ N), <- (nb_mode _ _ N).
+    set (n1 := fresh_pp (pl s1) (povr s1)). set (n2 := fresh_pp (pl s2) (povr s1)).
+    assert (NB n1 n2) as Nn.
+    { unfold n1, n2, fresh_pp. destruct N. constructor; cbn; auto; try (intros X; congruence). }
+    assert (SE n1 n2) as Sn by (intros X; unfold n1, fresh_pp in X; cbn in X; congruence).
+    pose proof (Hrec c1 c2 Hc n1 n2 Nn Sn) as R. rewrite HcP in R.
+    assert (HS False n1 n2) as Hn by (intros X; unfold n1, fresh_pp in X; cbn in X; congruence).
+    specialize (R Hn).
+    destruct (rec c1 n1) as [[u1|?| |?] x], (rec c2 n2) as [[u2|?| |?] y];
+      try (exact Logic.I || contradiction || (exfalso; assumption)).
+    destruct R as (_ & Nx & Sx & (d1 & d2 & L1 & L2 & D)).
+    refine (conj Logic.I (conj _ (conj _ _))).
+    - apply NB_set_pl; [|rewrite !lmode_setmode; reflexivity | intros X; exfalso; apply Hns; destruct s1; exact X].
+      apply NB_set_pl; [exact N | apply Nx | intros X; exfalso; apply Hns; exact X].
+    - intros X. destruct s1; cbn in *. congruence.
+    - exists (OMode (lmode (pl s1)) :: d1), (OMode (lmode (pl s1)) :: d2).
+      rewrite !pl_set_pl, !rlog_lset, L1, L2. unfold n1, n2, fresh_pp. cbn [pl].
+      split; [reflexivity|]. split; [reflexivity|]. cbn [rev]. rewrite lmode_setmode.
+      eapply dsim_app; [exact D|]. apply ds_mode. constructor.
+  Qed.
+
+  Lemma Jrun_action self1 self2 verb a1 a2 : actrel a1 a2 ->
+    JS (HS False) any (run_action rec env self1 verb a1) (run_action rec env self2 verb a2).
+  Proof.
+    intros Ha. inversion Ha; subst; cbn [run_action].
+    - apply J_JS. now apply J_ret.
+    - apply Junsafe_w1. now apply usegw_ws.
+    - apply Junsafe_w1. now apply usegw_ws.
+    - apply Junsafe_w1. now apply usegw_ws.
+    - destruct a2; try contradiction; cbn [run_action].
+      + (* SafeString *) intros s1 s2 N S Hs.
+        rewrite !(bracket_ext start_safe_ovr (w1 (WS s)) (wr [WS s]) (w1_wr (WS s))). now apply Jsafe_wr.
+      + change (fmtInteger rec env u true 100) with (ubody (fun f => Some (fmt_integer f u 10 true 100 false))). apply Jsafe_ubody.
+      + change (fmtInteger rec env u false 100) with (ubody (fun f => Some (fmt_integer f u 10 false 100 false))). apply Jsafe_ubody.
+      + change (fmtFloat rec env bits 64 118) with (ubody (fun f => fmt_float (orc env) f bits 64 103 (-1))). apply Jsafe_ubody.
+      + intros s1 s2 N S Hs. rewrite !(bracket_ext start_safe_ovr (w1 (WR r)) (wr [WR r]) (w1_wr (WR r))). now apply Jsafe_wr.
+      + intros s1 s2 N S Hs. rewrite !(bracket_ext start_safe_ovr (w1 (WB c)) (wr [WB c]) (w1_wr (WB c))). now apply Jsafe_wr.
+      + intros s1 s2 N S Hs. rewrite !(bracket_ext start_safe_ovr (w1 (WS s)) (wr [WS s]) (w1_wr (WS s))). now apply Jsafe_wr.
+      + apply Junsafe_w1, usegw_refl.
+      + apply Junsafe_w1, usegw_refl.
+      + eapply JS_bind_k; [apply J_JS, J_getf | apply kovr_getf | intros f ? <-]. apply Junsafe_w1, usegw_refl.
+    - apply Jnested; [cbn [crel]; assumption | reflexivity].
+    - apply Jnested; [cbn [crel]; auto | reflexivity].
+  Qed.
+
+  Lemma Jrun_acts self1 self2 verb : forall acts1 acts2, Forall2 actrel acts1 acts2 ->
+    JS (HS False) any (run_acts rec env self1 verb acts1) (run_acts rec env self2 verb acts2).
+  Proof.
+    intros acts1 acts2 H. induction H as [|a1 a2 r1 r2 Ha Hr IH]; cbn [run_acts].
+    - apply J_JS. now apply J_ret.
+    - eapply JS_bind_k; [now apply Jrun_action | apply kovr_keeps, keeps_run_action; try exact Hkeeps | intros _ _ _; exact IH].
+  Qed.
+
   (* ---------- Unsafe(x) as an operand ---------- *)
   Lemma bracket_unsafe_ovr_run {A} (b : M A) s :
     bracket start_unsafe_ovr b s =
@@ -1523,20 +2085,34 @@ Section Rec.
         | CPrintValue v verb depth ci => printValue rec env v verb depth ci ;;; ret RU
         | CBadVerb verb => badVerb rec verb ;;; ret RU
         | CHandleMethods verb => b <- handleMethods rec env verb ;; ret (RBo b)
-        | _ => ret RU end)
+        | CDoPrintf f a => doPrintf rec f a ;;; ret RU
+        | CDoPrint a => doPrint rec a ;;; ret RU
+        | CActs self verb acts => run_acts rec env self verb acts ;;; ret RU
+        end)
        (match c2 with
         | CPrintArg v verb => printArg rec env v verb ;;; ret RU
         | CPrintValue v verb depth ci => printValue rec env v verb depth ci ;;; ret RU
         | CBadVerb verb => badVerb rec verb ;;; ret RU
         | CHandleMethods verb => b <- handleMethods rec env verb ;; ret (RBo b)
-        | _ => ret RU end).
+        | CDoPrintf f a => doPrintf rec f a ;;; ret RU
+        | CDoPrint a => doPrint rec a ;;; ret RU
+        | CActs self verb acts => run_acts rec env self verb acts ;;; ret RU
+        end).
   Proof.
     intros Hc. destruct c1, c2; cbn [crel] in Hc; try contradiction; cbn [cP].
-    - destruct Hc as [<- [Hl | [(a & b & -> & -> & Hl) | (a & m & -> & -> & Hl)]]]; (eapply JS_bind; [|intros; now apply J_ret]); apply JS0_JS;
+    - destruct Hc as [<- Hl]. inversion Hl; subst; (eapply JS_bind; [|intros; now apply J_ret]); apply JS0_JS;
         [now apply JprintArg | now apply JprintArg_unsafe | now apply JprintArg_safe].
     - destruct Hc as (<- & <- & <- & Hl). eapply JS_bind; [|intros; now apply J_ret]. now apply JprintValue.
     - subst. apply J_JS. eapply J_bind; [apply JbadVerb | intros; now apply J_ret].
     - subst. apply J_JS. eapply J_bind; [apply JhandleMethods | intros b ? <-; now apply J_ret].
+    - (* Printf on a nested printer *)
+      destruct Hc as (<- & Hns & Ha). eapply JS_bind; [|intros; now apply J_ret].
+      eapply JS_weaken; [|apply (J_doPrintf rec Hrec Hkrec Hkeeps f a a0 Hns Ha)]. intros ? ? Hx Ho. exact (Hx Ho).
+    - (* Print on a nested printer *)
+      eapply JS_bind; [|intros; now apply J_ret].
+      eapply JS_weaken; [|apply (J_doPrint rec Hrec Hkrec a a0 Hc)]. intros ? ? Hx Ho. exact (Hx Ho).
+    - (* the script of a Format / SafeFormat method *)
+      destruct Hc as (<- & Hsc). eapply JS_bind; [|intros; now apply J_ret]. now apply Jrun_acts.
   Qed.
 End Rec.
 
@@ -1551,274 +2127,11 @@ Qed.
 
 Print Assumptions ev_leaf_rel.
 
-(* ---------- doPrintf ---------- *)
-Lemma JS_bind_o (Hp : ovr -> Prop) {A B} (RA : A -> A -> Prop) (RB : B -> B -> Prop) m1 m2 k1 k2 :
-  JS (fun s1 _ => Hp (povr s1)) RA m1 m2 -> kovr m1 ->
-  (forall a1 a2, RA a1 a2 -> JS (fun s1 _ => Hp (povr s1)) RB (k1 a1) (k2 a2)) ->
-  JS (fun s1 _ => Hp (povr s1)) RB (bind m1 k1) (bind m2 k2).
-Proof.
-  intros Hm Hko Hk s1 s2 N S Hs. unfold bind. specialize (Hm s1 s2 N S Hs). pose proof (Hko s1) as Eo.
-  destruct (m1 s1) as [[a1|v1| |w1] s1'] eqn:E1; destruct (m2 s2) as [[a2|v2| |w2] s2'] eqn:E2; try (exact Logic.I || contradiction || (exfalso; assumption));
-    try (destruct (k1 a1 s1') as [[?|?| |?] ?]; exact Logic.I).
-  destruct Hm as (Ra & N' & S' & G). cbn [snd] in Eo.
-  assert (Hp (povr s1')) as Hs' by (rewrite Eo; exact Hs).
-  specialize (Hk a1 a2 Ra s1' s2' N' S' Hs').
-  destruct (k1 a1 s1') as [[b1|?| |?] s1''], (k2 a2 s2') as [[b2|?| |?] s2'']; try (exact Logic.I || contradiction || (exfalso; assumption)).
-  destruct Hk as (Rb & N'' & S'' & G'). refine (conj Rb (conj N'' (conj S'' _))). eapply seg_trans; eassumption.
-Qed.
-
-Definition NoO : pst -> pst -> Prop := fun s1 _ => (fun o => o = NoOvr) (povr s1).
-
-Definition no_star (f : bytes) : bool := forallb (fun c => negb (c =? 42)%N) f.
-
-Lemma no_star_fb f i : no_star f = true -> ((i <? length f)%nat && (fb f i =? 42)) = false.
-Proof.
-  intros H. destruct (i <? length f)%nat eqn:E; [|reflexivity]. apply Nat.ltb_lt in E. cbn [andb].
-  unfold no_star in H. rewrite forallb_forall in H. specialize (H (nth i f 0%N) (nth_In _ _ E)).
-  unfold fb. destruct (nth i f 0%N =? 42)%N eqn:E2; [discriminate|]. apply N.eqb_neq in E2.
-  apply Z.eqb_neq. intros X. apply E2. apply N2Z.inj. exact X.
-Qed.
-
-Section Loop.
-  Variable rec : recT.
-  Variable env : env.
-  Hypothesis Hrec : rec_ok rec.
-  Hypothesis Hkrec : forall c, kovr (rec c).
-
-  Ltac nbmod :=
-    let s1 := fresh "s1" in let s2 := fresh "s2" in let N := fresh "N" in let S := fresh "S" in
-    intros s1 s2 N S; split;
-    [ destruct N; destruct s1, s2; constructor; cbn in *; auto; try congruence
-    | unfold SE in *; destruct s1, s2; cbn in *; auto ].
-
-  Lemma J_modf (h : pst -> pst) :
-    (forall s1 s2, NB s1 s2 -> SE s1 s2 -> NB (h s1) (h s2) /\ SE (h s1) (h s2)) -> (forall s, pl (h s) = pl s) ->
-    J any (modify h) (modify h).
-  Proof. intros H1 H2. now apply J_modify. Qed.
-
-  Lemma J_upd_flags g : J any (upd_flags g) (upd_flags g).
-  Proof. unfold upd_flags. apply J_modf; [nbmod | intros []; reflexivity]. Qed.
-  Lemma J_clearflags : J any clearflags clearflags.
-  Proof. unfold clearflags. apply J_modf; [nbmod | intros []; reflexivity]. Qed.
-  Lemma J_set_good b : J any (modify (fun s => set_good s b)) (modify (fun s => set_good s b)).
-  Proof. apply J_modf; [nbmod | intros []; reflexivity]. Qed.
-  Lemma J_set_reordered b : J any (modify (fun s => set_reordered s b)) (modify (fun s => set_reordered s b)).
-  Proof. apply J_modf; [nbmod | intros []; reflexivity]. Qed.
-  Lemma J_set_wid w p : J any (modify (fun s => set_wid s w p)) (modify (fun s => set_wid s w p)).
-  Proof. apply J_modf; [nbmod | intros []; reflexivity]. Qed.
-  Lemma J_set_prec w p : J any (modify (fun s => set_prec s w p)) (modify (fun s => set_prec s w p)).
-  Proof. apply J_modf; [nbmod | intros []; reflexivity]. Qed.
-
-  Lemma kovr_mod h : (forall s, povr (h s) = povr s) -> kovr (modify h).
-  Proof. intros H s. apply H. Qed.
-
-  Lemma J_flag_loop fuel f e argNum numArgs : forall i, J eq (flag_loop fuel f i e argNum numArgs) (flag_loop fuel f i e argNum numArgs).
-  Proof.
-    induction fuel as [|k IH]; intros i; cbn [flag_loop]; [now apply J_ret|].
-    destruct (i <? e)%nat; [|now apply J_ret].
-    repeat match goal with |- J eq (if ?c then _ else _) _ => destruct c end;
-      try (eapply J_bind; [apply J_upd_flags | intros; apply IH]); now apply J_ret.
-  Qed.
-
-  Lemma J_argNumber argNum f i e numArgs : J eq (argNumber argNum f i e numArgs) (argNumber argNum f i e numArgs).
-  Proof.
-    unfold argNumber. destruct ((e <=? i)%nat || negb (fb f i =? 91)); [now apply J_ret|].
-    eapply J_bind; [apply J_set_reordered | intros _ _ _].
-    destruct (parseArgNumber f i e) as [[index w] ok].
-    destruct (ok && (0 <=? index) && (index <? numArgs)); [now apply J_ret|].
-    eapply J_bind; [apply J_set_good | intros; now apply J_ret].
-  Qed.
-
-  Lemma Forall2_len {A B} (R : A -> B -> Prop) l1 l2 : Forall2 R l1 l2 -> length l1 = length l2.
-  Proof. induction 1; cbn; congruence. Qed.
-
-  Lemma lrel_nth a1 : forall a2 n, Forall2 arel a1 a2 -> arel (nth n a1 VNil) (nth n a2 VNil).
-  Proof.
-    induction a1 as [|x r IH]; intros a2 n H; inversion H; subst.
-    - destruct n; left; apply vr_leaf, lrel_refl; reflexivity.
-    - destruct n; cbn [nth]; [assumption | now apply IH].
-  Qed.
-
-  Lemma NoO_HS P s1 s2 : NoO s1 s2 -> HS P s1 s2.
-  Proof. unfold NoO, HS. intros -> X. discriminate. Qed.
-
-  Lemma Jrec_arg a1 a2 n verb : Forall2 arel a1 a2 ->
-    JS NoO any (rec (CPrintArg (nth n a1 VNil) verb)) (rec (CPrintArg (nth n a2 VNil) verb)).
-  Proof.
-    intros Ha s1 s2 N S Hn.
-    pose proof (Hrec (CPrintArg (nth n a1 VNil) verb) (CPrintArg (nth n a2 VNil) verb) (conj eq_refl (lrel_nth a1 a2 n Ha)) s1 s2 N S (NoO_HS _ _ _ Hn)) as R.
-    destruct (rec (CPrintArg (nth n a1 VNil) verb) s1) as [[u1|?| |?] x], (rec (CPrintArg (nth n a2 VNil) verb) s2) as [[u2|?| |?] y]; try (exact Logic.I || contradiction || (exfalso; assumption)).
-    destruct R as (_ & R). exact (conj Logic.I R).
-  Qed.
-
-  Hypothesis Hkeeps : rec_keeps rec.
-
-  Ltac jb := eapply (JS_bind_o (fun o => o = NoOvr)).
-  Ltac jn x := apply (J_JS NoO); exact x.
-
-  Lemma J_format_loop f a1 a2 : no_star f = true -> Forall2 arel a1 a2 ->
-    forall fuel i argNum afterIndex,
-    JS NoO eq (format_loop fuel rec f a1 i argNum afterIndex) (format_loop fuel rec f a2 i argNum afterIndex).
-  Proof.
-    intros Hns Ha. pose proof (Forall2_len _ _ _ Ha) as El.
-    induction fuel as [|k IH]; intros i argNum afterIndex; cbn [format_loop]; [intros s1 s2 _ _ _; exact Logic.I|].
-    rewrite <- El. set (e := length f). set (numArgs := Z.of_nat (length a1)).
-    assert (forall j, ((j <? e)%nat && (fb f j =? 42)) = false) as Hst by (intros; apply no_star_fb; exact Hns).
-    destruct (negb (i <? e)%nat); [apply J_JS; now apply J_ret|].
-    jb; [jn (J_set_good true) | apply kovr_mod; intros []; reflexivity | intros _ _ _].
-    jb; [| destruct (i <? skip_literal (S e) f i e)%nat; [apply kovr_w1 | intros s; reflexivity] | intros _ _ _].
-    { destruct (i <? skip_literal (S e) f i e)%nat; [jn (J_w1 (WS (subb f i (skip_literal (S e) f i e)))) | apply J_JS; now apply J_ret]. }
-    destruct (e <=? skip_literal (S e) f i e)%nat; [apply J_JS; now apply J_ret|].
-    jb; [jn J_clearflags | apply kovr_keeps, keeps_clearflags | intros _ _ _].
-    jb; [apply J_JS, J_flag_loop | apply kovr_keeps, keeps_flag_loop | intros fr ? <-].
-    destruct fr as [c i3 | i3].
-    { (* the fast path *)
-      jb; [| destruct (c =? 118); [apply kovr_keeps, keeps_upd_flags | intros s; reflexivity] | intros _ _ _].
-      { destruct (c =? 118); [jn (J_upd_flags f_verbv) | apply J_JS; now apply J_ret]. }
-      jb; [now apply Jrec_arg | apply Hkrec | intros _ _ _]. apply IH. }
-    jb; [apply J_JS, J_argNumber | apply kovr_keeps, keeps_argNumber | intros [[an i4] ai] ? <-].
-    (* width *)
-    rewrite (Hst i4).
-    jb.
-    { destruct (parsenum f i4 e) as [[w present] i5].
-      eapply JS_bind; [jn (J_set_wid w present) | intros _ _ _].
-      eapply J_bind; [|intros _ _ _; now apply (J_ret eq (an, i5, ai) (an, i5, ai))].
-      destruct (ai && present); [apply J_set_good | now apply J_ret]. }
-    { destruct (parsenum f i4 e) as [[w present] i5]. apply kovr_bind; [apply kovr_mod; intros []; reflexivity | intros _].
-      apply kovr_bind; [destruct (ai && present); [apply kovr_mod; intros []; reflexivity | intros s; reflexivity] | intros _ s; reflexivity]. }
-    intros [[an2 i5] ai2] ? <-.
-    (* precision *)
-    jb.
-    { destruct ((S i5 <? e)%nat && (fb f i5 =? 46)); [|apply J_JS; now apply (J_ret eq (an2, i5, ai2) (an2, i5, ai2))].
-      eapply JS_bind; [| intros _ _ _].
-      { destruct ai2; [jn (J_set_good false) | apply J_JS; now apply J_ret]. }
-      eapply J_bind; [apply J_argNumber | intros [[an3 i7] ai3] ? <-].
-      rewrite (Hst i7).
-      destruct (parsenum f i7 e) as [[p present] i8].
-      eapply J_bind; [|intros _ _ _; now apply (J_ret eq (an3, i8, ai3) (an3, i8, ai3))].
-      destruct present; apply J_set_prec. }
-    { destruct ((S i5 <? e)%nat && (fb f i5 =? 46)); [|intros s; reflexivity].
-      apply kovr_bind; [destruct ai2; [apply kovr_mod; intros []; reflexivity | intros s; reflexivity] | intros _].
-      apply kovr_bind; [apply kovr_keeps, keeps_argNumber | intros [[an3 i7] ai3]].
-      rewrite (Hst i7). destruct (parsenum f i7 e) as [[p present] i8].
-      apply kovr_bind; [destruct present; apply kovr_mod; intros []; reflexivity | intros _ s; reflexivity]. }
-    intros [[an4 i8] ai4] ? <-.
-    jb; [| destruct ai4; [intros s; reflexivity | apply kovr_keeps, keeps_argNumber] | intros [[an5 i9] ai5] ? <-].
-    { destruct ai4; [apply J_JS; now apply (J_ret eq (an4, i8, true) (an4, i8, true)) | apply J_JS, J_argNumber]. }
-    destruct (e <=? i9)%nat.
-    { apply J_JS. eapply J_bind; [apply J_wstr | intros; now apply J_ret]. }
-    destruct (if fb f i9 <? 128 then (fb f i9, 1%nat) else decode_rune (skipn i9 f)) as [verb size].
-    apply JS_get_bind. intros x y s1 s2 N S (-> & -> & Hn). rewrite <- (nb_good _ _ N).
-    assert (forall m1 m2 : M Z, JS NoO eq m1 m2 -> match m1 x, m2 y with
-              | (ROk a1', s1'), (ROk a2', s2') => a1' = a2' /\ NB s1' s2' /\ SE s1' s2' /\ seg x s1' y s2'
-              | (RFuel, _), _ | (RMiss _, _), _ | _, (RFuel, _) | _, (RMiss _, _) => True | _, _ => False end) as Hap
-      by (intros m1 m2 Hm; apply Hm; auto).
-    destruct (verb =? 37).
-    { apply Hap. jb; [jn (J_wbyte 37) | apply kovr_wbyte | intros _ _ _]. apply IH. }
-    destruct (negb (goodArgNum x)).
-    { apply Hap. jb; [jn (J_wstr "%!") | apply kovr_wstr | intros _ _ _].
-      jb; [jn (J_w1 (WR verb)) | apply kovr_w1 | intros _ _ _].
-      jb; [jn (J_wstr "(BADINDEX)") | apply kovr_wstr | intros _ _ _]. apply IH. }
-    destruct (numArgs <=? an5).
-    { apply Hap. jb; [jn (J_wstr "%!") | apply kovr_wstr | intros _ _ _].
-      jb; [jn (J_w1 (WR verb)) | apply kovr_w1 | intros _ _ _].
-      jb; [jn (J_wstr "(MISSING)") | apply kovr_wstr | intros _ _ _]. apply IH. }
-    apply Hap.
-    jb; [| destruct (verb =? 118); [apply kovr_keeps, keeps_upd_flags | intros s; reflexivity] | intros _ _ _].
-    { destruct (verb =? 118); [jn (J_upd_flags f_verbv) | apply J_JS; now apply J_ret]. }
-    jb; [now apply Jrec_arg | apply Hkrec | intros _ _ _]. apply IH.
-  Qed.
-End Loop.
-
-Section Top.
-  Variable rec : recT.
-  Variable env : env.
-  Hypothesis Hrec : rec_ok rec.
-  Hypothesis Hkrec : forall c, kovr (rec c).
-  Hypothesis Hkeeps : rec_keeps rec.
-
-  Ltac jb := eapply (JS_bind_o (fun o => o = NoOvr)).
-  Ltac jba := eapply (JS_bind_o (fun o => o = NoOvr) any).
-
-  Lemma J_enter_safe : JS NoO any enter_safe enter_safe.
-  Proof.
-    unfold enter_safe. apply JS_get_bind. intros x y s1 s2 N S (-> & -> & Hn).
-    unfold NoO in Hn. rewrite <- (nb_ovr _ _ N), Hn. cbn [ovr_eqb].
-    apply (JS_set_mode MSafe); auto. intros _. discriminate.
-  Qed.
-
-  Lemma J_extra_args a1 : forall a2 first, Forall2 arel a1 a2 ->
-    JS NoO any (extra_args rec first a1) (extra_args rec first a2).
-  Proof.
-    induction a1 as [|x r IH]; intros a2 first H; inversion H as [|? y ? r2 Hxy Hr]; subst; cbn [extra_args]; [apply J_JS; now apply J_ret|].
-    jba; [| destruct first; [intros s; reflexivity | apply kovr_wstr] | intros _ _ _].
-    { destruct first; [apply J_JS; now apply J_ret | apply J_JS, J_wstr]. }
-    jba; [| | intros _ _ _; now apply IH].
-    - destruct (value_eq_nil x) as [-> | Hn1].
-      + assert (y = VNil) as -> by (now apply (arel_nil_iff _ _ Hxy)). apply J_JS, J_wstr.
-      + assert (y <> VNil) as Hn2 by (intros E; apply Hn1; now apply (arel_nil_iff _ _ Hxy)).
-        destruct (arel_names _ _ Hxy) as (Etn & _).
-        assert ((match x with VNil => wstr "<nil>" | _ => w1 (WS (type_name x)) ;;; wbyte 61 ;;; rec (CPrintArg x 118) ;;; ret tt end)
-                = (w1 (WS (type_name x)) ;;; wbyte 61 ;;; rec (CPrintArg x 118) ;;; ret tt)) as -> by (destruct x; congruence).
-        assert ((match y with VNil => wstr "<nil>" | _ => w1 (WS (type_name y)) ;;; wbyte 61 ;;; rec (CPrintArg y 118) ;;; ret tt end)
-                = (w1 (WS (type_name y)) ;;; wbyte 61 ;;; rec (CPrintArg y 118) ;;; ret tt)) as -> by (destruct y; congruence).
-        rewrite <- Etn.
-        jb; [apply J_JS, J_w1 | apply kovr_w1 | intros _ _ _].
-        jb; [apply J_JS, J_wbyte | apply kovr_wbyte | intros _ _ _].
-        eapply JS_bind; [|intros; now apply J_ret].
-        intros s1 s2 N S Hn.
-        pose proof (Hrec (CPrintArg x 118) (CPrintArg y 118) (conj eq_refl Hxy) s1 s2 N S (NoO_HS _ _ _ Hn)) as R.
-        destruct (rec (CPrintArg x 118) s1) as [[u1|?| |?] p], (rec (CPrintArg y 118) s2) as [[u2|?| |?] q]; try (exact Logic.I || contradiction || (exfalso; assumption)).
-        destruct R as (_ & R). exact (conj Logic.I R).
-    - destruct x; try (apply kovr_wstr);
-        (apply kovr_bind; [apply kovr_w1 | intros _]; apply kovr_bind; [apply kovr_wbyte | intros _]; apply kovr_bind; [apply Hkrec | intros _ sx; reflexivity]).
-  Qed.
-
-  Lemma Forall2_skipn {A B} (R : A -> B -> Prop) n : forall l1 l2, Forall2 R l1 l2 -> Forall2 R (skipn n l1) (skipn n l2).
-  Proof. induction n as [|k IH]; intros l1 l2 H; [exact H|]. inversion H; subst; cbn [skipn]; [constructor | now apply IH]. Qed.
-
-  Lemma J_doPrintf f a1 a2 : no_star f = true -> Forall2 arel a1 a2 ->
-    JS NoO any (doPrintf rec f a1) (doPrintf rec f a2).
-  Proof.
-    intros Hns Ha. unfold doPrintf. rewrite <- (Forall2_len _ _ _ Ha).
-    jb; [apply J_enter_safe | apply kovr_enter_safe | intros _ _ _].
-    jb; [apply J_JS, J_set_reordered | apply kovr_mod; intros []; reflexivity | intros _ _ _].
-    jb; [now apply J_format_loop | apply kovr_keeps, keeps_format_loop, Hkeeps | intros argNum ? <-].
-    apply JS_get_bind. intros x y s1 s2 N S (-> & -> & Hn). rewrite <- (nb_re _ _ N).
-    destruct (negb (reordered x) && (argNum <? Z.of_nat (length a1))).
-    - assert (JS NoO any (clearflags ;;; wstr "%!(EXTRA " ;;; extra_args rec true (skipn (Z.to_nat argNum) a1) ;;; wbyte 41)
-                         (clearflags ;;; wstr "%!(EXTRA " ;;; extra_args rec true (skipn (Z.to_nat argNum) a2) ;;; wbyte 41)) as Hk.
-      { jb; [apply J_JS, J_clearflags | apply kovr_keeps, keeps_clearflags | intros _ _ _].
-        jb; [apply J_JS, J_wstr | apply kovr_wstr | intros _ _ _].
-        eapply JS_bind; [apply J_extra_args, Forall2_skipn, Ha | intros; apply J_wbyte]. }
-      apply Hk; auto.
-    - apply (J_ret any tt tt Logic.I); auto.
-  Qed.
-
-  Lemma J_doPrint_loop a1 : forall a2 argNum prev, Forall2 arel a1 a2 ->
-    JS NoO any (doPrint_loop rec argNum prev a1) (doPrint_loop rec argNum prev a2).
-  Proof.
-    induction a1 as [|x r IH]; intros a2 argNum prev H; inversion H as [|? y ? r2 Hxy Hr]; subst; cbn [doPrint_loop]; [apply J_JS; now apply J_ret|].
-    destruct (arel_names _ _ Hxy) as (_ & Es). rewrite <- Es.
-    jba; [| destruct ((0 <? argNum)%nat && negb (is_string_kind x) && negb prev); [apply kovr_wbyte | intros s; reflexivity] | intros _ _ _].
-    { destruct ((0 <? argNum)%nat && negb (is_string_kind x) && negb prev); [apply J_JS, J_wbyte | apply J_JS; now apply J_ret]. }
-    jba; [| apply Hkrec | intros _ _ _; now apply IH].
-    intros s1 s2 N S Hn.
-    pose proof (Hrec (CPrintArg x 118) (CPrintArg y 118) (conj eq_refl Hxy) s1 s2 N S (NoO_HS _ _ _ Hn)) as R.
-    destruct (rec (CPrintArg x 118) s1) as [[u1|?| |?] p], (rec (CPrintArg y 118) s2) as [[u2|?| |?] q]; try (exact Logic.I || contradiction || (exfalso; assumption)).
-    destruct R as (_ & R). exact (conj Logic.I R).
-  Qed.
-
-  Lemma J_doPrint a1 a2 : Forall2 arel a1 a2 -> JS NoO any (doPrint rec a1) (doPrint rec a2).
-  Proof.
-    intros Ha. unfold doPrint. jb; [apply J_enter_safe | apply kovr_enter_safe | intros _ _ _]. now apply J_doPrint_loop.
-  Qed.
-End Top.
 
 (* ---------- the theorem ---------- *)
 Lemma NB_newPrinter : NB newPrinter newPrinter /\ SE newPrinter newPrinter /\ NoO newPrinter newPrinter.
 Proof.
-  split; [|split; [intros H; discriminate | reflexivity]].
+  split; [|split; [intros H; discriminate | discriminate]].
   constructor; cbn; auto; try discriminate.
 Qed.
 
@@ -1903,7 +2216,7 @@ Print Assumptions sprint_tree_noninterference_hk.
 
 (* the leaf-only statements as corollaries *)
 Lemma lrel_vrel_list a1 a2 : Forall2 lrel a1 a2 -> Forall2 arel a1 a2.
-Proof. induction 1; constructor; [left; now apply vr_leaf | assumption]. Qed.
+Proof. induction 1; constructor; [apply ar_v; now apply vr_leaf | assumption]. Qed.
 
 Theorem sprintf_leaf_noninterference_hk fuel env f a1 a2 o1 o2 :
   osane (orc env) -> (hk = false -> hook env = None) -> no_star f = true -> Forall2 lrel a1 a2 ->
